@@ -439,5 +439,16 @@ pub fn generate_c09(tier: &str, rng: &mut Rng) -> Vec<String> {
             case += 1;
         }
     }
+    // lengths whose third length byte is non-zero: wider prefixes, the length crossing 65536 (and back)
+    for (t, l, wl) in [("u8", "p32", 4usize), ("u8", "p64", 8), ("u8", "p128", 16)] {
+        let cap = 65540usize;
+        let mut b = vec![5u8; wl + cap];
+        for x in b[..wl].iter_mut() { *x = 0; }
+        b[0] = 0xfe; b[1] = 0xff; // stored length 65534
+        v.push(format!("B {case} lvh {t} {l} 0 {}", hex(&b)));
+        for op in ["O reopen", "O push 09", "O push 0a", "O push 0b", "O reopen", "O remove 65536", "O remove 0", "O remove 0", "O remove 70000", "O reopen"] { v.push(op.into()); }
+        v.push("E".into());
+        case += 1;
+    }
     v
 }
